@@ -72,6 +72,15 @@ Ready(n) ==
   /\ queue' = <<>> /\ stale' = FlushStale
   /\ act' = A("Ready", n, "", 0) /\ UNCHANGED <<ep, acc, calls, order, deliv, run, had>>
 
+\* The service answers the ready message at once with the first tx (id n): the client has written ready(n) but may not have
+\* stored n as its next id yet (Ready: 278-310 writes first).  What the application is entitled to: the tx is delivered.
+ReadyRace(n) ==
+  /\ Step /\ acc /\ Full /\ n >= 1 /\ Len(deliv) < MaxNote
+  /\ nextId' = n + 1 /\ hs' = TRUE /\ deliv' = Append(deliv, [kind |-> "tx", id |-> n])
+  /\ srv' = Flush(Append(srv, [t |-> "ready", key |-> n, hs |-> TRUE])) /\ sent' = FlushSent
+  /\ queue' = <<>> /\ stale' = FlushStale
+  /\ act' = A("ReadyRace", n, "", 0) /\ UNCHANGED <<ep, acc, calls, order, run, had>>
+
 Call(k, kind, key) ==
   /\ Step /\ calls[k].st # "pending"
   /\ \A j \in Slots : calls[j].st = "pending" => ~(calls[j].kind = kind /\ (calls[j].key = key \/ kind = "FeeQuotes"))   \* distinct keys among concurrent calls
@@ -159,6 +168,7 @@ Stop == /\ Step /\ run' = "stopped" /\ act' = A("Stop", 0, "", 0)
 
 Next == \/ \E v \in {"valid", "wrongkey", "otherhash", "badsig", "counts", "replay"} : Accept(v)
         \/ \E n \in 0..4 : Ready(n)
+        \/ \E n \in 2..3 : ReadyRace(n)
         \/ \E k \in Slots, kind \in Kinds, key \in Keys : Call(k, kind, key)
         \/ \E k \in Slots, f \in {"ok", "reject", "wrongkey"} : Respond(k, f)
         \/ \E i \in 1..Len(stale), f \in {"ok", "reject"} : RespondStale(i, f)
@@ -202,6 +212,7 @@ DropP(s, t, e) == (e.a = "Drop") => (t.nextId = s.nextId /\ t.deliv = s.deliv /\
 FlushP(s, t, e) == ((e.a = "Ready") \/ (e.a = "Accept" /\ e.kind = "valid" /\ ~Full)) =>                                   \* C18: queued requests go out with the handshake
    \A k \in Slots : t.calls[k].st = "pending" => t.sent[k]
 WrittenP(t) == \A k \in Slots : (t.calls[k].st = "done" /\ t.calls[k].res \in {"ok", "reject"}) => t.sent[k]               \* C18: no answer without a written request
+ReadyRaceP(s, t, e) == (e.a = "ReadyRace") => (t.deliv = Append(s.deliv, [kind |-> "tx", id |-> e.k]) /\ t.nextId = e.k + 1)   \* C17: from the declared id on
 BurstP(s, t, e) == (e.a = "Burst") =>                                                                                       \* C17: order across notification kinds
    /\ t.deliv = s.deliv \o <<[kind |-> "hdrs", id |-> e.k]>>
                        \o (IF s.acc THEN <<[kind |-> "tx", id |-> s.nextId], [kind |-> "upd", id |-> s.nextId + 1]>> ELSE <<>>)
@@ -212,6 +223,6 @@ QuietP(s, t, e) == (e.a \in {"Call", "Respond", "RespondStale", "Timeout", "Stop
                      => (t.deliv = s.deliv /\ t.nextId = s.nextId)                                                          \* C17: nothing else reaches handlers
 StepProps == [][AcceptP(S, S', act') /\ NotifyP(S, S', act') /\ RespondP(S, S', act') /\ AnsweredP(S, S', act') /\ TimeoutP(S, S', act')
                 /\ ReadyP(S, S', act') /\ NotifyOtherP(S, S', act') /\ DropP(S, S', act') /\ FlushP(S, S', act') /\ WrittenP(S')
-                /\ QuietP(S, S', act') /\ SubscribeP(S, S', act') /\ BurstP(S, S', act')]_vars
+                /\ QuietP(S, S', act') /\ SubscribeP(S, S', act') /\ BurstP(S, S', act') /\ ReadyRaceP(S, S', act')]_vars
 RejectProps == [][RejectSurfacesP(S, S', act')]_vars
 =============================================================================
